@@ -6,6 +6,7 @@
 // step (so a state is completely described by (max,off,len)+content and
 // closure under the alphabet is covered once all states are initial).
 #include <deque>
+#include <type_traits>
 #include <cerrno>
 #include <cstdlib>
 #include "queue.h"
@@ -351,8 +352,14 @@ void mc_jobs(Tier t, std::vector<std::string> &jobs)
 	// large states for the >1024-byte paths of mpt_memrev / mpt_memswap (align, resize, string, peek only)
 	if (t == Thorough) for (int k = 0; k < 8; ++k) jobs.push_back("large=" + std::to_string(k));
 	else jobs.push_back("large=0");
+	// capacities of 2 GiB and more (counts of free elements no longer fit an int), storage reserved but never touched
+	jobs.push_back("giant");
+	// an io::queue owns its storage: copies of the object (where the class allows them) have to be independent queues
+	jobs.push_back("copy");
 }
 static void large_step(Run &r, Counters &c, size_t max, size_t off, size_t len, int op, size_t a);
+static void giant_step(Run &r, Counters &c, size_t max, size_t off, size_t len, int op, size_t a);
+static void copy_step(Run &r, Counters &c, size_t len, int how, size_t grow);
 
 static const size_t large_max[] = {2600, 2048, 3000, 2100, 4200, 2050, 2500, 3100};
 static const size_t large_len[] = {1, 1023, 1024, 1025, 1500, 2047};
@@ -373,6 +380,23 @@ static void body(Run &r, Counters &c, const std::string &job, Ctx &x)
 		r.hint(opn[v[i].op]);
 		r.note("state(max=%zu,off=%zu,len=%zu) op=%s a=%zu b=%zu", max, off, len, opn[v[i].op], v[i].a, v[i].b);
 		step(r, c, max, off, len, v[i].op, v[i].a, v[i].b);
+	} else if (job == "giant") {
+		static const size_t GM[] = {((size_t) 1 << 31) + 64, (size_t) 3 << 30};
+		static const int GO[] = {PUSH, UNSHIFT, XPUSH, XUNSHIFT, XWRITE};
+		size_t max = GM[x.choose(2)];
+		size_t lens[] = {0, 1, 5}, len = lens[x.choose(3)];
+		size_t offs[] = {0, 7, max - 1, max - 3}, off = offs[x.choose(4)];
+		int op = GO[x.choose(5)]; size_t a = 1 + x.choose(3);
+		if (!len && !off && op == PUSH && a == 1) ++r.states;
+		r.hint(opn[op]);
+		r.note("giant state(max=%zu,off=%zu,len=%zu) op=%s a=%zu", max, off, len, opn[op], a);
+		giant_step(r, c, max, off, len, op, a);
+	} else if (job == "copy") {
+		size_t len = x.choose(8), grow = x.choose(3) * 40; int how = (int) x.choose(2);
+		if (!grow && !how) ++r.states;
+		r.hint("io::queue copy");
+		r.note("io::queue copy len=%zu how=%d grow=%zu", len, how, grow);
+		copy_step(r, c, len, how, grow);
 	} else {
 		size_t max = large_max[atoi(job.c_str() + 6) % 8];
 		size_t len = large_len[x.choose(6)];
@@ -418,6 +442,67 @@ static void large_step(Run &r, Counters &c, size_t max, size_t off, size_t len, 
 	}
 	if (wrapped(max, off, len) || wrapped(q.max, q.off, q.len)) ++c.nontrivial;
 	s.fini();
+}
+
+// giant states: only appending/prepending a few bytes; content = the few stored bytes
+static void giant_step(Run &r, Counters &c, size_t max, size_t off, size_t len, int op, size_t a)
+{
+	mpt::queue q; q.base = malloc(max); q.max = max; q.off = off; q.len = len;
+	std::string sig = std::string(opn[op]) + "|giant," + (wrapped(max, off, len) ? "wrapped" : "linear") + "|in-range|";
+	std::string desc = fmt("state(max=%zu,off=%zu,len=%zu) %s(%zu)", max, off, len, opn[op], a);
+	if (!q.base) { r.note("cannot reserve %zu bytes", max); return; }
+	std::deque<uint8_t> m;
+	for (size_t i = 0; i < len; ++i) { ((uint8_t *) q.base)[(off + i) % max] = label(i); m.push_back(label(i)); }
+	uint8_t data[8] = {0xA0, 0xA1, 0xA2, 0xA3, 0xA4, 0xA5, 0xA6, 0xA7};
+	asan_error();
+	bool ok = true;
+	if (op == PUSH) ok = LIB(mpt_qpush(&q, a, data)) >= 0;
+	else if (op == UNSHIFT) ok = LIB(mpt_qunshift(&q, a, data)) >= 0;
+	else { mpt::io::queue xq(0); xq._d = q;
+		if (op == XPUSH) ok = LIB(xq.push(data, a)); else if (op == XUNSHIFT) ok = LIB(xq.unshift(data, a)); else ok = LIB(xq.write(a, data, 1)) == (ssize_t) a;
+		q = xq._d; xq._d.base = 0; xq._d.max = xq._d.len = xq._d.off = 0; }
+	if (ok) { if (op == UNSHIFT || op == XUNSHIFT) for (size_t i = a; i-- > 0;) m.push_front(data[i]); else for (size_t i = 0; i < a; ++i) m.push_back(data[i]); }
+	std::vector<uint8_t> got(q.len <= 64 ? q.len : 0), want(m.begin(), m.end());
+	if (asan_error()) r.violation(sig + "wrong-result", desc + ": memory access outside the storage");
+	else if (!ok && q.len != len) r.violation(sig + "refused-but-changed", desc + fmt(": reported as refused, stored length went from %zu to %zu", len, q.len));
+	else if (!ok) r.violation(sig + "refused-although-it-fits", desc + ": a request that fits was refused");
+	else if (q.len != m.size() || q.len > q.max || q.off > q.max) r.violation(sig + "wrong-result", desc + fmt(": post state (max=%zu,off=%zu,len=%zu), deque length %zu", q.max, q.off, q.len, m.size()));
+	else if (q.len && (mpt_queue_get(&q, 0, q.len, got.data()) < 0 || got != want || asan_error())) r.violation(sig + "wrong-result", desc + ": content " + hex(got.data(), got.size()) + " != deque " + hex(want.data(), want.size()));
+	if (wrapped(max, off, len) || wrapped(q.max, q.off, q.len)) ++c.nontrivial;
+	free(q.base);
+}
+
+// copies of an io::queue object: only compiled into a real scenario while the class is copyable
+template <typename Q> static typename std::enable_if<std::is_copy_constructible<Q>::value && std::is_copy_assignable<Q>::value, bool>::type
+copy_scenario(Run &r, size_t len, int how, size_t grow, std::string &what)
+{
+	uint8_t data[8] = {1, 2, 3, 4, 5, 6, 7, 8}, big[128]; memset(big, 0x42, sizeof big);
+	Q *a = new Q(16); a->push(data, len);
+	{
+		Q *b = how ? new Q(0) : new Q(*a);
+		if (how) *b = *a;
+		if (grow) b->push(big, grow);
+		mpt::span<const uint8_t> sb = b->peek(0);
+		if (sb.size() != len + grow || (len && memcmp(sb.begin(), data, len))) what = "the copy does not hold the content of the original";
+		delete b;
+	}
+	mpt::span<const uint8_t> sa = LIB(a->peek(0));
+	if (asan_error()) what = "the original reads released storage after its copy was modified and destroyed";
+	else if (sa.size() != len || (len && memcmp(sa.begin(), data, len))) what = "the content of the original changed through its copy";
+	if (what.empty()) delete a;    // otherwise the storage is already gone
+	(void) r;
+	return true;
+}
+template <typename Q> static typename std::enable_if<!(std::is_copy_constructible<Q>::value && std::is_copy_assignable<Q>::value), bool>::type
+copy_scenario(Run &, size_t, int, size_t, std::string &) { return false; }
+static void copy_step(Run &r, Counters &c, size_t len, int how, size_t grow)
+{
+	std::string what;
+	asan_error();
+	bool copyable = copy_scenario<mpt::io::queue>(r, len, how, grow, what);
+	if (!what.empty()) r.violation(std::string("io::queue copy|") + (how ? "assign" : "construct") + "|in-range|wrong-result", fmt("io::queue of %zu bytes %s, %zu bytes pushed to the copy: ", len, how ? "assigned" : "copy-constructed", grow) + what);
+	++c.nontrivial;
+	r.count(copyable ? "io_queue_copies_checked" : "io_queue_not_copyable(nothing to check)", 1);
 }
 
 void mc_replay(Run &r, const std::string &job, const Vec &v)
